@@ -253,9 +253,15 @@ def _derived(ctx, api, g, m, cid, walk, rng, R, M, union, grid_from_segments):
             grr = gr.refine()
             walk(grr, cid + ":refine2", what="refine().refine()")
             _check_children(ctx, cid + ":refine2", "refine", 4, R, gr, grr)
-    # segments
+    # segments (single-domain meshes get spatial patches with arbitrary labels first, so that every family is exercised,
+    # including segments whose vertex numbers are sparse and large in the parent numbering)
     doms = sorted(set(np.asarray(g.domain_indices).tolist()))
-    if len(doms) >= 2:
+    if len(doms) < 2 and g.number_of_elements >= 4:
+        lab = M.assign_domains(m, rng, ndom=min(4, g.number_of_elements // 2), values=[int(x) for x in rng.choice(500, size=4, replace=False)])
+        g = M.to_grid(lab)
+        m = lab
+        doms = sorted(set(np.asarray(g.domain_indices).tolist()))
+    for _rep in range(2 if len(doms) >= 2 else 0):
         k = int(rng.integers(1, len(doms)))
         segs = [int(x) for x in rng.choice(doms, size=k, replace=False)]
         gs = grid_from_segments(g, segs)
